@@ -762,6 +762,17 @@ func handle(line string) string {
 			return "BADCASE"
 		}
 		return encrCase(seed, proto, f[3] == "1")
+	case "encrf":
+		if len(f) != 5 {
+			return "BADCASE"
+		}
+		seed, err := strconv.ParseInt(f[1], 10, 64)
+		proto, err2 := strconv.Atoi(f[2])
+		k, err3 := strconv.Atoi(f[4])
+		if err != nil || err2 != nil || err3 != nil {
+			return "BADCASE"
+		}
+		return encrfCase(seed, proto, f[3] == "1", k)
 	case "long":
 		s, err := unhexOrDash(f[1])
 		if err != nil {
